@@ -52,12 +52,32 @@ Fixpoint sx_gmarker (g : gmarker) : sx :=
   | GOr a b => SL [SI 2; sx_gmarker a; sx_gmarker b]
   end.
 
+Fixpoint decode_grid (l : list sx) : option (list (list bytes)) :=
+  match l with
+  | [] => Some []
+  | SL g :: r =>
+      match decode_bytes_list g, decode_grid r with
+      | Some g', Some r' => Some (g' :: r')
+      | _, _ => None
+      end
+  | _ => None
+  end.
+
+Definition sx_resbool (r : res bool) : sx :=
+  match r with
+  | Ok b => sx_bool b
+  | Err _ => SB sym_err
+  | Panic _ => SB sym_panic
+  | OutOfFuel => SB sym_fuel
+  end.
+
+(* observables first (accepted, value, values over the grid of extras sets), the tree last *)
 Definition sx_marker_result (valid : bytes -> bool) (sat : N -> bytes -> bytes -> res bool)
-    (raw : bytes) (extras : list bytes) : sx :=
+    (raw : bytes) (extras : list bytes) (grid : list (list bytes)) : sx :=
   match parse_marker valid sat raw with
   | Ok g =>
       match geval sat extras g with
-      | Ok b => SL [SB sym_ok; sx_bool b; sx_gmarker g]
+      | Ok b => SL [SB sym_ok; sx_bool b; SL (map (fun e => sx_resbool (geval sat e g)) grid); sx_gmarker g]
       | Err _ => SL [SB sym_err]
       | Panic p => if p =? PMissingOracle then SB sym_oom else SL [SB sym_panic]
       | OutOfFuel => SL [SB sym_fuel]
@@ -83,15 +103,35 @@ Definition sx_edge_result (valid : bytes -> bool) (sat : N -> bytes -> bytes -> 
    otherwise every edge is present exactly when its own marker holds for its own extras *)
 Definition sym_edges : bytes := [101;100;103;101;115].
 
+Definition req_of (extras : list bytes) : list bytes :=
+  requested_extras (match extras with [] => None | _ => Some (join_with 44 extras) end).
+
+(* the extras with which the guarded requirement's package is asked for, per universe shape
+   (harness/go/cmd/implrun/pep508.go markerMulti): 1 = on the root itself (none), 2 = two
+   requirers (union), otherwise the one requirer's *)
+Definition shape_extras (shape : Z) (ex ex2 : list bytes) : list bytes :=
+  if (shape =? 1)%Z then [] else if (shape =? 2)%Z then req_of ex ++ req_of ex2 else req_of ex.
+
+Definition multi_item (s : sx) : option (bytes * list bytes) :=
+  match s with
+  | SL [SB raw; SL ex] =>
+      match decode_bytes_list ex with Some e => Some (raw, req_of e) | None => None end
+  | SL [SB raw; SL ex; SI shape; SL ex2] =>
+      match decode_bytes_list ex, decode_bytes_list ex2 with
+      | Some e, Some e2 => Some (raw, shape_extras shape e e2)
+      | _, _ => None
+      end
+  | _ => None
+  end.
+
 Fixpoint multi_root (valid : bytes -> bool) (sat : N -> bytes -> bytes -> res bool)
     (items : list sx) : option (res (list bool)) :=
   match items with
   | [] => Some (Ok [])
-  | SL [SB raw; SL ex] :: rest =>
-      match decode_bytes_list ex, multi_root valid sat rest with
-      | Some extras, Some tail =>
-          let attr := match extras with [] => None | _ => Some (join_with 44 extras) end in
-          Some (match marker_result valid sat raw (requested_extras attr) with
+  | it :: rest =>
+      match multi_item it, multi_root valid sat rest with
+      | Some (raw, requested), Some tail =>
+          Some (match marker_result valid sat raw requested with
                 | Ok b => match tail with Ok bs => Ok (b :: bs) | e => e end
                 | Err e => match tail with Panic p => Panic p | OutOfFuel => OutOfFuel | _ => Err e end
                 | Panic p => Panic p
@@ -99,7 +139,6 @@ Fixpoint multi_root (valid : bytes -> bool) (sat : N -> bytes -> bytes -> res bo
                 end)
       | _, _ => None
       end
-  | _ => None
   end.
 
 Definition sx_multi_root (r : option (res (list bool))) : sx :=
@@ -246,9 +285,14 @@ Definition run_Pep508 (kind : bytes) (a : sx) : option sx :=
     Some (match a with SB s => SB (canon_name s) | _ => badcase end)
   else if kind_is kind [109;97;114;107;101;114] (* marker *) then
     Some (match a with
+          | SL [SB raw; SL ex; SL vt; SL st; SL gr] =>
+              match decode_bytes_list ex, decode_grid gr with
+              | Some extras, Some grid => sx_marker_result (lookup_valid vt) (lookup_sat st) raw extras grid
+              | _, _ => badcase
+              end
           | SL [SB raw; SL ex; SL vt; SL st] =>
               match decode_bytes_list ex with
-              | Some extras => sx_marker_result (lookup_valid vt) (lookup_sat st) raw extras
+              | Some extras => sx_marker_result (lookup_valid vt) (lookup_sat st) raw extras []
               | None => badcase
               end
           | _ => badcase end)
@@ -278,13 +322,14 @@ Definition run_Pep508 (kind : bytes) (a : sx) : option sx :=
               end
           | _ => badcase end)
   else if kind_is kind [115;112;101;99;95;101;118;97;108] (* spec_eval *) then
-    (* (tree extras spec-sat-table go-valid-table) -> (result in-domain) *)
+    (* (tree extras spec-sat-table go-valid-table) -> (result in-domain class) *)
     Some (match a with
           | SL [t; SL ex; SL st; SL vt] =>
               match decode_tree 200 t, decode_bytes_list ex with
               | Some m, Some extras =>
                   SL [sx_optbool (eval target_env (lookup_spec_sat st) extras m);
-                      sx_bool (in_domain target_env (lookup_valid vt) (lookup_spec_sat st) extras m)]
+                      sx_bool (in_domain target_env (lookup_valid vt) (lookup_spec_sat st) extras m);
+                      SI (Z.of_N (domain_class target_env (lookup_valid vt) (lookup_spec_sat st) extras m))]
               | _, _ => badcase
               end
           | _ => badcase end)
